@@ -281,6 +281,177 @@ let c03 = function
      | (k, w) :: _ -> Printf.sprintf "FAIL key=%s%s on input %s (validator: %s, %d problem runs)" k (if start_rec && k = "accepts-non-sentence" then "-recursive-start" else "") w (if safe then "table safe" else "table UNSAFE") (Stdlib.List.length !problems))
   | _ -> "FAIL malformed case"
 
+(* regexes: (eps) | (cls (lo hi)...) | (cat r...) | (alt r...) | (rep min max r) | (repinf min r) *)
+let rec regex_of_sx (x : Sexp.t) : Regex.regex =
+  match x with
+  | L [A "eps"] -> Regex.Eps
+  | L (A "cls" :: rs) -> Regex.Cls (Stdlib.List.map (fun r -> match ints_of_sx r with [a; b] -> (n_of_int a, n_of_int b) | _ -> failwith "range") rs)
+  | L (A "cat" :: rs) -> (match Stdlib.List.rev_map regex_of_sx rs with
+      | [] -> Regex.Eps
+      | last :: before -> Stdlib.List.fold_left (fun acc r -> Regex.Cat (r, acc)) last before)
+  | L (A "alt" :: rs) -> (match Stdlib.List.rev_map regex_of_sx rs with
+      | [] -> Regex.Empty
+      | last :: before -> Stdlib.List.fold_left (fun acc r -> Regex.Alt (r, acc)) last before)
+  | L [A "rep"; mn; mx; r] -> Regex.rrep (regex_of_sx r) (nat_of_int (int_of_sx mn)) (nat_of_int (int_of_sx mx))
+  | L [A "repinf"; mn; r] ->
+    let m = int_of_sx mn in
+    if m = 0 then Regex.Star (regex_of_sx r) else Regex.rrep_from (regex_of_sx r) (nat_of_int m)
+  | _ -> failwith "regex"
+
+let show_word w = "[" ^ Stdlib.String.concat " " (Stdlib.List.map (fun c -> string_of_int (int_of_n c)) w) ^ "]"
+
+(* canonical equality pattern of a delimiter, e.g. "-->" -> "aab" *)
+let eq_pattern (e : int list) : string =
+  let seen = ref [] in
+  Stdlib.String.concat "" (Stdlib.List.map (fun c ->
+      let i = (match Stdlib.List.assoc_opt c !seen with Some i -> i | None -> let i = Stdlib.List.length !seen in seen := (c, i) :: !seen; i) in
+      Stdlib.String.make 1 (Char.chr (97 + i))) e)
+
+(* C15 *)
+let c15_block = function
+  | [_; _; A "panic"] -> "FAIL key=panic generate_build_information panicked"
+  | [s; e; L [A "rejected"; _]] ->
+    let e' = ints_of_sx e in
+    if Stdlib.List.length e' > 3 || e' = [] then "OK 0 rejected-as-documented" else "FAIL key=rejected a delimiter pair with an end delimiter of 1-3 characters was rejected"
+  | [_; _; L [A "untranslatable"; _]] -> "SKIP regex not expressible in the model"
+  | [s; e; L [A "rx"; _; rx]] ->
+    let s' = ints_of_sx s and e' = ints_of_sx e in
+    let r = regex_of_sx rx in
+    (match CommentCheck.block_check_sv (nat_of_int 1500) r (Stdlib.List.map n_of_int s') (Stdlib.List.map n_of_int e') with
+     | None -> "SKIP equivalence check out of fuel"
+     | Some None -> Printf.sprintf "OK 1 exact-%datom-%s" (Stdlib.List.length e') (eq_pattern e')
+     | Some (Some w) ->
+       let key = if s' = [47; 42] && e' = [42; 47] then "block-c-style-dedicated-regex"
+         else Printf.sprintf "block-%datom-%s" (Stdlib.List.length e') (eq_pattern e') in
+       let is_c = CommentSpec.dfa_accepts (CommentSpec.block_spec (Stdlib.List.map n_of_int s') (Stdlib.List.map n_of_int e')) w in
+       Printf.sprintf "FAIL key=%s the generated block-comment regex and 'from start to the FIRST end delimiter' differ on %s (%s)" key (show_word w)
+         (if is_c then "a comment the regex does not match" else "matched by the regex but runs past the first end delimiter or is no comment"))
+  | _ -> "FAIL malformed case"
+
+let c15_line = function
+  | [_; A "panic"] -> "FAIL key=panic generate_build_information panicked"
+  | [_; L [A "untranslatable"; _]] -> "SKIP regex not expressible in the model"
+  | [_; L [A "rejected"; _]] -> "FAIL key=rejected line comment start rejected"
+  | [s; L [A "rx"; _; rx]] ->
+    let s' = Stdlib.List.map n_of_int (ints_of_sx s) in
+    (match CommentCheck.line_check_sv (nat_of_int 1500) (regex_of_sx rx) s' with
+     | None -> "SKIP equivalence check out of fuel"
+     | Some None -> "OK 1 line-exact"
+     | Some (Some w) ->
+       let key = if Stdlib.List.mem (n_of_int 13) w then "line-comment-dot-matches-cr" else "line-comment" in
+       Printf.sprintf "FAIL key=%s the generated line-comment regex and 'to the end of its line, including the line break' differ on %s" key (show_word w))
+  | _ -> "FAIL malformed case"
+
+(* C10 *)
+let c10 = function
+  | [_; A "panic"] -> "FAIL key=panic left_factor panicked"
+  | [g; g'] ->
+    let g1 = cfg_of_sx g and g2 = cfg_of_sx g' in
+    let shared = Stdlib.List.exists (fun p -> Stdlib.List.exists (fun q ->
+        p != q && p.Cfg.lhs = q.Cfg.lhs && p.Cfg.rhs <> [] && q.Cfg.rhs <> [] && Stdlib.List.hd p.Cfg.rhs = Stdlib.List.hd q.Cfg.rhs) g1.Cfg.prods) g1.Cfg.prods in
+    if not (LeftFactor.lf_check g1 g2) then begin
+      if not (LeftFactor.prefix_free_check g2) then "FAIL key=shared-prefix-left two non-empty alternatives of one non-terminal still start with the same symbol"
+      else if not (LeftFactor.fresh_check g1 g2) then "FAIL key=name-clash a new suffix non-terminal coincides with an existing name"
+      else "FAIL key=start-changed the start symbol changed"
+    end else begin
+      (* language of every old non-terminal, on all strings up to a bound *)
+      let ts = cfg_terminals g1 in
+      let bound = if Stdlib.List.length ts <= 2 then 5 else if Stdlib.List.length ts <= 3 then 4 else 3 in
+      let ws = strings ts bound in
+      let old_nts = Stdlib.List.sort_uniq compare (Stdlib.List.map (fun p -> p.Cfg.lhs) g1.Cfg.prods) in
+      let from g a w = (match Member.member_from (Member.member_fuel g w) g [Cfg.NT a] w with Some b -> b | None -> failwith "fuel") in
+      let bad = Stdlib.List.find_map (fun a -> Stdlib.List.find_map (fun w -> if from g1 a w <> from g2 a w then Some (a, w) else None) ws) old_nts in
+      match bad with
+      | Some (a, w) -> Printf.sprintf "FAIL key=language-changed non-terminal %d derives %s in exactly one of the two grammars" (int_of_n a) (show_word w)
+      | None -> Printf.sprintf "OK %d %s" (if shared then 1 else 0) (if shared then "factored" else "nothing-to-factor")
+    end
+  | _ -> "FAIL malformed case"
+
+(* C32 *)
+module K = KTupleModel
+let c32 = function
+  | [m; L steps] ->
+    let m' = n_of_int (int_of_sx m) in
+    let regs = Array.make 4 (BinNums.N0) in
+    let raw_of x = n_of_decimal (match x with A a -> a | _ -> failwith "raw") in
+    let problem = ref None in
+    let raw_same = ref true in
+    let maxlen = ref 0 in
+    let fail k msg = if !problem = None then problem := Some (k, msg) in
+    (* compare an implementation result (raw) with a model result, by denotation *)
+    let settle d (model : K.packed K.res) (raw : BinNums.coq_N) what =
+      (match model with
+       | K.Panic -> fail "model-panic" (what ^ ": the model says this call panics, the implementation returned a value")
+       | K.Ok pm ->
+         let pi = raw in
+         if pm <> raw then raw_same := false;
+         (match K.denote pi, K.denote pm with
+          | Some a, Some b when a = b -> (match K.denote pi with Some l -> maxlen := max !maxlen (Stdlib.List.length l) | None -> ())
+          | None, _ -> fail "ill-formed" (what ^ ": the implementation's value is not a well-formed packed sequence")
+          | _, _ -> fail "denotation" (what ^ ": the value denotes a different sequence than the abstract operation yields")));
+      regs.(d) <- raw in
+    let panicked = ref false in
+    Stdlib.List.iter (fun st ->
+        if !problem = None && not !panicked then
+          match st with
+          | L [A "panic"] ->
+            panicked := true
+          | L [A "new"; d; r] -> settle (int_of_sx d) (K.coq_new true m') (raw_of r) "new"
+          | L [A "eps"; d; r] -> settle (int_of_sx d) (K.eps true m') (raw_of r) "eps"
+          | L [A "end"; d; r] -> settle (int_of_sx d) (K.end_ true m') (raw_of r) "end"
+          | L [A "set"; d; r] ->
+            (* a fresh new/eps/end value: accept whichever of the three the raw value equals by denotation *)
+            let raw = raw_of r in
+            let cands = [K.coq_new true m'; K.eps true m'; K.end_ true m'] in
+            if Stdlib.List.exists (function K.Ok p -> K.denote p = K.denote raw | K.Panic -> false) cands
+            then regs.(int_of_sx d) <- raw else fail "denotation" "fresh value is none of new/eps/end"
+          | L [A "push"; d; t; ok; r] ->
+            let d' = int_of_sx d in
+            (match K.push true regs.(d') (n_of_int (int_of_sx t)) with
+             | K.Panic -> fail "model-panic" "push"
+             | K.Ok None -> if ok <> A "err" then fail "push-result" "push: Err expected" else regs.(d') <- raw_of r
+             | K.Ok (Some p) -> if ok <> A "ok" then fail "push-result" "push: Ok expected" else settle d' (K.Ok p) (raw_of r) "push")
+          | L [A "extend"; d; ts; r] -> let d' = int_of_sx d in settle d' (K.extend true regs.(d') (ns_of_sx ts)) (raw_of r) "extend"
+          | L [A "kconcat"; d; s; k; r] -> let d' = int_of_sx d in
+            settle d' (K.k_concat true regs.(d') regs.(int_of_sx s) (n_of_int (int_of_sx k))) (raw_of r) "k_concat"
+          | L [A "of"; d; s; k; r] -> settle (int_of_sx d) (K.of_ true (n_of_int (int_of_sx k)) regs.(int_of_sx s)) (raw_of r) "of"
+          | L [A "clear"; d; r] -> let d' = int_of_sx d in settle d' (K.clear true regs.(d')) (raw_of r) "clear"
+          | L [A "obs"; d; len; k; klen; iseps; iskc; isempty; it; i; g] ->
+            let p = regs.(int_of_sx d) in
+            let k' = n_of_int (int_of_sx k) in
+            let b x = int_of_sx x = 1 in
+            if int_of_n (K.len p) <> int_of_sx len then fail "obs-len" "len"
+            else if int_of_n (K.k_len p k') <> int_of_sx klen then fail "obs-k_len" "k_len"
+            else if K.is_eps p <> b iseps then fail "obs-is_eps" "is_eps"
+            else if K.is_k_complete p k' <> K.Ok (b iskc) then fail "obs-is_k_complete" "is_k_complete"
+            else if K.is_empty p <> b isempty then fail "obs-is_empty" "is_empty"
+            else if Stdlib.List.map int_of_n (K.iter p) <> ints_of_sx it then fail "obs-iter" "iter"
+            else begin
+              let gi = (match g with A "none" -> None | x -> Some (int_of_sx x)) in
+              match K.get p (n_of_int (int_of_sx i)) with
+              | K.Ok r -> if (match r with Some v -> Some (int_of_n v) | None -> None) <> gi then fail "obs-get" "get"
+              | K.Panic -> fail "model-panic" "get"
+            end
+          | L [A "cmp"; a; b; c; e] ->
+            let pa = regs.(int_of_sx a) and pb = regs.(int_of_sx b) in
+            let want = (match c with A "lt" -> Datatypes.Lt | A "eq" -> Datatypes.Eq | _ -> Datatypes.Gt) in
+            if K.cmp pa pb <> K.Ok want then fail "cmp" "ordering differs from the order on the denoted sequences"
+            else if K.eqb pa pb <> (int_of_sx e = 1) then fail "eq" "equality differs"
+          | _ -> fail "malformed" "step") steps;
+    (match !problem with
+     | Some (k, msg) -> Printf.sprintf "FAIL key=%s %s (max terminal index %d)" k msg (int_of_sx m)
+     | None ->
+       if !panicked then
+         (* the only panic the model predicts in these sequences is Terminals::new beyond the 12 bit limit *)
+         (match K.coq_new true m' with
+          | K.Panic -> "OK 0 panic-as-modelled:more-than-4095-terminals"
+          | K.Ok _ -> "FAIL key=impl-panic the implementation panicked where the model returns a value")
+       else
+         let mi = int_of_sx m in
+         let boundary = (mi + 1) land mi = 0 || (mi + 2) land (mi + 1) = 0 in
+         Printf.sprintf "OK %d %s %s" (if !maxlen >= 2 && (boundary || !maxlen >= 5) then 1 else 0) (if !raw_same then "raw-identical" else "raw-differs-denotation-equal") (if boundary then "boundary-alphabet" else "inner-alphabet"))
+  | _ -> "FAIL malformed case"
+
 (* C12 *)
 let c12 = function
   | [_; A "panic"] -> "FAIL key=panic augment_grammar panicked"
@@ -344,6 +515,10 @@ let dispatch (sx : Sexp.t) : string =
   | L (A "eval" :: args) -> c08 args
   | L (A "aug" :: args) -> c12 args
   | L (A "wf" :: args) -> c11 args
+  | L (A "ktseq" :: args) -> c32 args
+  | L (A "lf" :: args) -> c10 args
+  | L (A "blk" :: args) -> c15_block args
+  | L (A "lin" :: args) -> c15_line args
   | L (A "lr" :: args) -> c03 args
   | L (A "first" :: args) -> c06_first args
   | L (A "follow" :: args) -> c06_follow args
